@@ -149,7 +149,8 @@ def generate(rng, tier):
             forms.append(["comment", rng.choice(["; note", ";; (unclosed", "; \"quote", ";"])])
     seps = [rng.choice(["\n", "\n", " ", "\n\n", "  \n"]) for _ in range(len(forms) + 1)]
     seps[0] = rng.choice(["", "", "\n", " "])
-    return {"forms": forms, "seps": seps, "repl_sample": rng.randrange(1 << 30)}
+    return {"forms": forms, "seps": seps, "repl_sample": rng.randrange(1 << 30),
+            "eol": rng.choice(["\n", "\n", "\n", "\r\n", "\r\n"])}
 
 
 # ------------------------------------------------------------------ renderer with per-offset classification
@@ -321,7 +322,25 @@ def render(desc):
             sep = " "
         r.emit(sep, "struct")
     assert not r.stack, r.stack
-    return "".join(r.out), r.cls, r.ctx
+    out, cls, ctx = r.out, r.cls, r.ctx
+    eol = desc.get("eol", "\n")
+    if eol != "\n":
+        # swarm over line endings: every "\n" becomes eol; a cut between "\r" and "\n" is judged like the
+        # position just before the line break
+        o2, c2, x2 = [], [cls[0]], [ctx[0]]
+        for p, ch in enumerate(out):
+            if ch == "\n":
+                for e in eol[:-1]:
+                    o2.append(e)
+                    c2.append(cls[p])
+                    x2.append(ctx[p])
+                o2.append(eol[-1])
+            else:
+                o2.append(ch)
+            c2.append(cls[p + 1])
+            x2.append(ctx[p + 1])
+        out, cls, ctx = o2, c2, x2
+    return "".join(out), cls, ctx
 
 
 # ------------------------------------------------------------------ execution
@@ -491,5 +510,7 @@ def shrink(desc):
     for i, f in enumerate(forms):
         for s in _simpler(f):
             yield dict(desc, forms=forms[:i] + [s] + forms[i + 1:])
+    if desc.get("eol", "\n") != "\n":
+        yield dict(desc, eol="\n")
     if any(s != "\n" for s in seps[1:]) or seps[0]:
         yield dict(desc, seps=[""] + ["\n"] * (len(seps) - 1))
